@@ -1,6 +1,7 @@
 mod asm;
 mod authgate;
 mod cfggate;
+mod crash;
 mod gas;
 mod http;
 mod inst;
@@ -50,7 +51,7 @@ fn smoke() -> i32 {
 }
 
 /// TLC's Json module rejects null: use the sentinel "NULL"
-fn denull(v: &mut serde_json::Value) {
+pub fn denull(v: &mut serde_json::Value) {
     match v {
         serde_json::Value::Null => *v = json!("NULL"),
         serde_json::Value::Array(a) => a.iter_mut().for_each(denull),
@@ -114,6 +115,7 @@ fn main() {
         "vk-edges" => vk::run(&args[2], args[3].parse().unwrap(), &args[4]),
         "smoke" => smoke(),
         "play" => play(&args[2..]),
+        "crash" => crash::run(&args[2], &args[3], args.get(4).and_then(|x| x.parse().ok()).unwrap_or(400), false),
         "gas" => gas::run(&args[2], args[3].parse().unwrap_or(1), args[4].parse().unwrap_or(20)),
         "cfggate" => cfggate::run(&args[2], &args[3]),
         "auth" => authgate::run(&args[2], &args[3]),
